@@ -174,7 +174,8 @@ func (pathItem *PathItem) GetOperation(method string) *Operation {
 	case http.MethodTrace:
 		return pathItem.Trace
 	default:
-		panic(fmt.Errorf("unsupported HTTP method %q", method))
+		// a method OpenAPI cannot describe (e.g. PROPFIND sent by a client) has no operation
+		return nil
 	}
 }
 
